@@ -67,7 +67,7 @@ def run_script(path, argv, world, capture):
                 code = 0
             except SystemExit as e:
                 code = e.code if e.code is not None else 0
-            except (core.StepBudget, core.WorldTimeout):
+            except (core.StepBudget, core.WorldTimeout, core.SimKill):
                 raise
             except BaseException as e:  # noqa
                 code = 'exc:%s' % type(e).__name__
